@@ -293,6 +293,13 @@ def r_algtab(repo, tier):
         if isinstance(n, ast.Assign) and norm(n.targets[0]) == "notop" and isinstance(n.value, ast.Subscript) and isinstance(n.value.value, ast.Dict):
             notop = n.value.value
     if notop is None:
+        # the table may live at module level and be indexed from eqn1_helpers: a dict literal whose keys and values are all
+        # comparison operator constants and that eqn1_helpers subscripts / .get()s
+        used = {x.value.id for x in ast.walk(f1.node) if isinstance(x, ast.Subscript) and isinstance(x.value, ast.Name)} | {x.func.value.id for x in ast.walk(f1.node) if isinstance(x, ast.Call) and isinstance(x.func, ast.Attribute) and x.func.attr == "get" and isinstance(x.func.value, ast.Name)}
+        for st in m.tree.body:
+            if isinstance(st, ast.Assign) and isinstance(st.targets[0], ast.Name) and st.targets[0].id in used and isinstance(st.value, ast.Dict) and st.value.keys and all(norm(k) in consts and norm(v) in consts for k, v in zip(st.value.keys, st.value.values)):
+                notop = st.value
+    if notop is None:
         raise AnalysisError("comparison-negation dict `notop` not found in eqn1_helpers")
     for k, v in zip(notop.keys, notop.values):
         a, b = consts.get(norm(k)), consts.get(norm(v))
@@ -487,7 +494,7 @@ def r_width(repo, tier):
                     for sym in sorted(fx.ops - cmp_ops):
                         out.report(f.file, f.dqual, "%s under op %s" % (norm(gr.node), sym), gr.node.lineno, "rewrite returns a 1-bit literal for operator %r whose result has the operand width" % sym)
     out.stats["returns"] = n
-    if n < 10:
+    if n < 5:
         raise AnalysisError("R-WIDTH: only %d operand/literal returns recognised in the rewrite helpers" % n)
     return out
 
@@ -1424,7 +1431,7 @@ def r_span(repo, tier):
     if not pops:
         raise AnalysisError("R-SPAN: comp.cut no longer pops the covered parts (anchor changed)")
     out.stats["stores"] = nst
-    if nst < 6:
+    if nst < 3:
         raise AnalysisError("R-SPAN: only %d part/smask stores found in class comp" % nst)
     return out
 
